@@ -1029,6 +1029,10 @@ PROPS["C18"] = {
         "Lace.C18.flag_irrelevant_cli",
         "Lace.C18.flag_off_cli_rejects",
         "Lace.C18.flag_position_irrelevant",
+        "Lace.C18.obj_flag_irrelevant",
+        "Lace.C18.obj_flag_off_opD_exit1",
+        "Lace.C18.obj_flag_position_irrelevant",
+        "Lace.C18.obj_bad_option_exit2",
         "Lace.C02.execute_eq_isa",
         "Lace.C02.stack_off_stops",
     ],
